@@ -160,11 +160,23 @@ def run(chk: lib.Check):
         multi = sorted({anc for (key, anc), c in cnt.items() if c >= 2}, key=lambda u: (sum(1 for _ in byid[u].iter()), u))[:200]
         stats["pool-multi-referenced-subtrees"] = len(multi)
         plan = []
-        share = max(1, n_targets // (7 * len(specs)))
+        share = max(1, n_targets // (8 * len(specs)))
         reqrels = [e.get("id") for e in all_sem if (e.get(graph.XSI_TYPE) or "").split(":")[-1] in ("CapellaIncomingRelation", "CapellaOutgoingRelation", "InternalRelation")]
         reqrel_pool = set(reqrels)
         refusal_pool = set()
-        for pool in (leaves, roots, popular, plends, plparents, multi, reqrels):
+        # members of a list of MIXED classes (same tag, another xsi:type before them): a filter attribute may exist on one class only
+        mixed = []
+        for e in all_sem:
+            if e.get("id") and e.get(graph.XSI_TYPE) and not len(e) > 30:
+                prev = e.getprevious()
+                while prev is not None:
+                    if isinstance(prev.tag, str) and prev.tag == e.tag and prev.get(graph.XSI_TYPE) and prev.get(graph.XSI_TYPE) != e.get(graph.XSI_TYPE):
+                        mixed.append(e.get("id"))
+                        break
+                    prev = prev.getprevious()
+        mixed_pool = set(mixed)
+        stats["pool-members-of-mixed-class-lists"] = len(mixed)
+        for pool in (leaves, roots, popular, plends, plparents, multi, reqrels, mixed):
             rng.shuffle(pool)
             plan += pool[:share]
             if pool is plends or pool is plparents:
@@ -253,7 +265,10 @@ def run(chk: lib.Check):
             del_acc = getattr(type(par), relname)
             tel = obj._element
             # ---- the entry point decides how many objects go at once
-            entry = forced_entry or rng.choice(["delitem", "delitem", "remove", "delete_all", "delattr", "delattr", "delslice", "delslice", "decl", "decl", "clear", "pop"])
+            entry = forced_entry or rng.choice(["delitem", "delitem", "remove", "delete_all", "delattr", "delattr", "delslice", "delslice", "decl", "decl", "clear", "pop",
+                                                 "delete_all_attr", "delete_all_attr", "decl_empty"])
+            if tid in mixed_pool and not forced_entry and rng.random() < 0.8:
+                entry = "delete_all_attr"
             if tid in refusal_pool:
                 # where a refusal is likely, delete it together with its siblings: all-or-nothing has to hold for the whole call
                 entry = rng.choice(["delattr", "delattr", "delslice", "decl", "delitem"])
@@ -279,6 +294,42 @@ def run(chk: lib.Check):
                     roots_el = [tel]
                 else:
                     roots_el = members
+            elif entry == "delete_all_attr":
+                # delete_all(<attribute>=<value the target has>): the members with that value go — all of them, or, when selecting fails on
+                # a member (a list of mixed classes, the attribute missing on one of them), none
+                fa_ = rng.choice(["kind", "is_abstract", "name", "xtype", "visibility", "min_length", "is_actor", "is_human", "direction"])
+                if tid in mixed_pool:
+                    # an attribute the target's class has and the class of a member BEFORE it has not
+                    own_ = [a_ for a_ in dir(type(obj)) if not a_.startswith("_") and any(not hasattr(type(m_), a_) for m_ in list(lst)[:idx])]
+                    rng.shuffle(own_)
+                    for a_ in own_[:12]:
+                        try:
+                            v_ = getattr(obj, a_)
+                        except Exception:  # noqa: BLE001
+                            continue
+                        if v_ is None or isinstance(v_, (str, bool, int, float)) or type(v_).__module__.endswith("modeltypes"):
+                            fa_ = a_
+                            break
+                try:
+                    fv_ = getattr(obj, fa_)
+                except Exception:  # noqa: BLE001
+                    fa_, fv_ = "xtype", obj.xtype
+                da_kw = {fa_: fv_}
+                da_sel_fails = False
+                roots_el = []
+                for m_obj in reversed(list(lst)):
+                    try:
+                        if getattr(m_obj, fa_) == fv_:
+                            roots_el.append(m_obj._element)
+                    except Exception:  # noqa: BLE001
+                        stats["delete_all-filter-attribute-missing-on-a-member"] += 1
+                        da_sel_fails = True
+                        break
+                if len(roots_el) > 40 or not roots_el:
+                    entry = "delitem"
+                    roots_el = [tel]
+            elif entry == "decl_empty":
+                roots_el = []
             elif entry == "clear":
                 if len(members) > 40:
                     entry = "delitem"
@@ -385,6 +436,11 @@ def run(chk: lib.Check):
                     lst.delete_all(uuid=tid)
                 elif entry == "delslice":
                     del lst[lo:hi]
+                elif entry == "delete_all_attr":
+                    lst.delete_all(**da_kw)
+                elif entry == "decl_empty":
+                    from capellambse import decl
+                    decl.apply(model, io.StringIO(f"- parent: !uuid {par.uuid}\n  delete:\n    {relname}: []\n"))
                 elif entry == "clear":
                     lst.clear()
                 elif entry == "pop":
@@ -402,6 +458,14 @@ def run(chk: lib.Check):
             stats[f"{entry}:{outcome}"] += 1
             chk.note_case((spec0["name"], tid, entry), nontrivial=bool(watched) or len(T) > 1)
             after = snapshot(loader, A)
+            if entry == "decl_empty":
+                # an empty list names no object: nothing is deleted
+                if after != before:
+                    chk.violation("empty-delete-list-deletes", f"a declarative delete with an EMPTY list for {type(par).__name__}.{relname} ({outcome}) changed "
+                                  f"{sum(1 for h in set(before) | set(after) if before.get(h) != after.get(h))} elements",
+                                  {"model": spec0["name"], "parent": par.uuid, "relation": relname})
+                    model = None
+                continue
             if outcome != "ok":
                 # a refused deletion leaves the lookups alone as well: every id of the target subtree still resolves to its element
                 unfound = []
@@ -418,7 +482,11 @@ def run(chk: lib.Check):
                     model = None
                     continue
                 gone_roots = [A.H(r_) not in after for r_ in roots_el]
-                if after != before and len(roots_el) > 1 and entry in ("delslice", "decl", "clear") and any(gone_roots) and not all(gone_roots) \
+                if after != before and entry == "delete_all_attr" and da_sel_fails:
+                    chk.violation("delete_all-selection-failed-but-deleted", f"deleting {desc} with {da_kw!r} raised {outcome} while SELECTING the members (one of them has no such "
+                                  f"attribute), yet {sum(gone_roots)} members were deleted", {"model": spec0["name"], "target": tid, "entry": entry, "error": outcome, "filter": repr(da_kw)})
+                    model = None
+                elif after != before and len(roots_el) > 1 and entry in ("delslice", "decl", "clear", "delete_all_attr") and any(gone_roots) and not all(gone_roots) \
                         and gone_roots == sorted(gone_roots, reverse=True):
                     # the objects are deleted one after the other: those before the refusing one are gone
                     chk.violation(f"partial-multi-delete:{entry}", f"deleting {desc} raised {outcome} after {sum(gone_roots)} of the {len(roots_el)} objects had been deleted",
